@@ -92,7 +92,7 @@ def gen(rng, ctx):
         k = rng.choice(["add", "add", "add", "add_uid", "connect", "connect", "connect", "disconnect", "remove", "set_output", "add_blackbox", "add_subcircuit", "fill_blackbox", "targeted"])
         if k == "targeted":
             # calls aimed at one wiring rule, built from the (approximate) types of the live nodes
-            t = rng.choice(["bbout_to_bufs", "second_driver", "into_source", "from_bbin", "bbout_to_gate", "fresh_bufs_then_bbout", "bb_conn_list", "add_bbout_fanout", "two_pins_one_buf"])
+            t = rng.choice(["bbout_to_bufs", "second_driver", "into_source", "from_bbin", "bbout_to_gate", "fresh_bufs_then_bbout", "bb_conn_list", "add_bbout_fanout", "two_pins_one_buf", "pin_replaced_then_fill"])
             bo, bi = of_type("bb_output"), of_type("bb_input")
             bufs = [n for n in live if ltype.get(n) == "buf"]
             if t == "fresh_bufs_then_bbout":
@@ -111,6 +111,15 @@ def gen(rng, ctx):
                 insts.append(name)
                 live += [f"{name}.p", f"{name}.o"]
                 ltype[f"{name}.p"], ltype[f"{name}.o"] = "bb_input", "bb_output"
+            elif t == "pin_replaced_then_fill":
+                # a pin node is removed by the caller, an ordinary gate takes its dotted name, then the instance is filled
+                name = f"T{len(ops)}"
+                ops.append({"op": "add_blackbox", "bb": BBDEFS[1], "name": name, "connections": {}})
+                ops.append({"op": "remove", "ns": f"{name}.{rng.choice(['p', 'o'])}"})
+                ops.append({"op": "add", "n": ops[-1]["ns"], "type": rng.choice(["and", "or", "bb_input", "bb_output", "buf"]), "uid": False, "output": False, "fanin": [pick(), pick()] if rng.random() < 0.7 else pick()})
+                matching = [i for i, ch in enumerate(children) if {n for n, t_, o in ch["nodes"] if t_ == "input"} == {"p"} and {n for n, t_, o in ch["nodes"] if o} == {"o"}]
+                ops.append({"op": "fill_blackbox", "name": name, "child": rng.choice(matching) if matching else 0})
+                insts.append(name)
             elif t == "two_pins_one_buf":
                 # both output pins of one instance mapped onto the same fresh buffer: each legal alone
                 b0 = f"fb{len(ops)}"
